@@ -275,6 +275,9 @@ def run(prop, tier):
 
     talker = e4.build_program(b, 'acf-can-talker')
     listener = e4.build_program(b, 'acf-can-listener')
+    if not e4.fd_available(listener, listener_args(1)):
+        res.incomplete.append('acf-can-listener: FD mode cannot be entered on this tree (no mode variable, and its --fd option does not reach the receive loop); FD modes are not explored')
+        cases[:] = [c for c in cases if not c[0][2]]
     tunnel(talker, listener, 'asan-O1')
     # again as the project's default build compiles the examples: -O0, locals not auto-initialised (still under ASan+UBSan)
     tunnel(e4.build_program(b, 'acf-can-talker', init='none'), e4.build_program(b, 'acf-can-listener', init='none'), 'O0')
